@@ -42,6 +42,11 @@ pub struct Seg {
 }
 
 impl Seg {
+    /// every register bit the element names (union of its ranges)
+    pub fn field_mask(&self) -> u128 {
+        self.clear
+    }
+
     pub fn new(f: &FieldSpec, idx: usize) -> Seg {
         let shift = f.arr.map_or(0, |(_, stride)| idx * stride) as u32;
         let mut segs = Vec::new();
